@@ -103,46 +103,27 @@ fn k_substr_skips() {
     std::mem::forget(args);
 }
 
-/// an ASCII string of 0 or 1 symbolic bytes
-fn short_string() -> (String, usize, u8) {
-    let mut s = String::with_capacity(2);
-    let n: usize = kani::any();
-    kani::assume(n <= 1);
-    let b: u8 = kani::any();
-    kani::assume(b < 128);
-    if n == 1 {
-        s.push(b as char);
-    }
-    (s, n, b)
-}
-
-/// join concatenates in query order with the delimiter strictly between elements -- elements may be EMPTY strings;
-/// non-strings / unresolved => error
-#[cfg_attr(kani, kani::proof)]
-#[cfg_attr(kani, kani::unwind(8))]
-#[cfg_attr(kani, kani::stub(alloc::fmt::format, fmt_stub))]
-#[cfg_attr(verif_replay, test)]
-fn k_join() {
-    lib_only!();
-    let (a, na, a0) = short_string();
-    let (b, nb, b0) = short_string();
-    let (c, nc, c0) = short_string();
+/// join concatenates in query order with the delimiter strictly between elements -- elements may be EMPTY strings.
+/// One concrete length pattern per harness (0 or 1 byte per element), bytes symbolic.
+fn join_shape(na: usize, nb: usize, nc: usize) {
+    let a = ascii_string(na);
+    let b = ascii_string(nb);
+    let c = ascii_string(nc);
     let d = ascii_string(1);
     let d0 = d.as_bytes()[0];
-    let args = vec![qr_str(a), qr_str(b), qr_str(c)];
-    let r = join(&args, d.as_str());
-    // expected: a d b d c
     let mut want = [0u8; 5];
     let mut n = 0usize;
-    if na == 1 { want[n] = a0; n += 1; }
+    if na == 1 { want[n] = a.as_bytes()[0]; n += 1; }
     want[n] = d0; n += 1;
-    if nb == 1 { want[n] = b0; n += 1; }
+    if nb == 1 { want[n] = b.as_bytes()[0]; n += 1; }
     want[n] = d0; n += 1;
-    if nc == 1 { want[n] = c0; n += 1; }
+    if nc == 1 { want[n] = c.as_bytes()[0]; n += 1; }
+    let args = vec![qr_str(a), qr_str(b), qr_str(c)];
+    let r = join(&args, d.as_str());
     match &r {
         Ok(PathAwareValue::String((_, s))) => {
             let x = s.as_bytes();
-            kani::assert(x.len() == n, "n elements are separated by exactly n-1 delimiters");
+            kani::assert(x.len() == n, "3 elements are separated by exactly 2 delimiters");
             let mut k = 0;
             while k < 5 {
                 if k < n && k < x.len() {
@@ -157,6 +138,24 @@ fn k_join() {
     std::mem::forget(args);
     std::mem::forget(d);
 }
+
+macro_rules! join_harness {
+    ($name:ident, $a:expr, $b:expr, $c:expr) => {
+        #[cfg_attr(kani, kani::proof)]
+        #[cfg_attr(kani, kani::unwind(7))]
+        #[cfg_attr(kani, kani::stub(alloc::fmt::format, fmt_stub))]
+        #[cfg_attr(verif_replay, test)]
+        fn $name() {
+            lib_only!();
+            join_shape($a, $b, $c);
+        }
+    };
+}
+join_harness!(k_join_111, 1usize, 1usize, 1usize);
+join_harness!(k_join_011, 0usize, 1usize, 1usize);
+join_harness!(k_join_101, 1usize, 0usize, 1usize);
+join_harness!(k_join_110, 1usize, 1usize, 0usize);
+join_harness!(k_join_000, 0usize, 0usize, 0usize);
 
 /// join: empty selection => empty string; a non-string or unresolved member => error
 #[cfg_attr(kani, kani::proof)]
